@@ -108,9 +108,20 @@ def _attr_assign(st, attr):
 
 
 def _retry_loop(fn):
-    loops = [x for x in ast.walk(fn) if isinstance(x, ast.For) and isinstance(x.iter, ast.Call)
-             and isinstance(x.iter.func, ast.Name) and x.iter.func.id == "range" and len(x.iter.args) == 1
-             and isinstance(x.iter.args[0], ast.Constant)]
+    """the `for _ in range(N)` loop (N a literal or a module-level constant name; its value is the business of
+    SrcFacts.snapshot_retries) whose body starts with `<v> = <frame>.f_lasti`"""
+    frame = fn.args.args[0].arg if fn.args.args else None
+    loops = []
+    for x in ast.walk(fn):
+        if not (isinstance(x, ast.For) and isinstance(x.iter, ast.Call) and isinstance(x.iter.func, ast.Name)
+                and x.iter.func.id == "range" and len(x.iter.args) == 1 and not x.iter.keywords
+                and isinstance(x.iter.args[0], (ast.Constant, ast.Name))):
+            continue
+        body = _strip(x.body)
+        if (body and isinstance(body[0], ast.Assign) and len(body[0].targets) == 1 and isinstance(body[0].targets[0], ast.Name)
+                and isinstance(body[0].value, ast.Attribute) and body[0].value.attr == "f_lasti"
+                and isinstance(body[0].value.value, ast.Name) and body[0].value.value.id == frame):
+            loops.append(x)
     return loops[0] if len(loops) == 1 else None
 
 
@@ -122,7 +133,11 @@ def _blocks(fn):
                 yield b
 
 
+_TREE = None
+
+
 def compute():
+    global _TREE
     facts = {k: False for k in (
         "snapshot_slot_check_adjacent", "snapshot_header_check_adjacent", "snapshot_capture_to_check_no_call",
         "snapshot_iframe_reads_in_loop",
@@ -130,6 +145,7 @@ def compute():
         "snapshot_check_read_no_switch_bytecode", "thread_alive_rechecked")}
     try:
         tree = _parse(L311)
+        _TREE = tree
         fn = _find_def(tree, "inspect_frame")
         if fn is not None:
             _snapshot_facts(fn, facts)
@@ -234,35 +250,63 @@ def _snapshot_facts(fn, facts):
     ok = ok and bool(after) and isinstance(after[-1], ast.Break)
     facts["snapshot_handler_retries_only_if_moved"] = ok
 
-    # --- the block walk starts from the accepted position
+    # --- the block walk (inline, or extracted into a module-level helper(co, pos)) is fed the accepted position
     ok = False
     if loop in fn.body:
         rest = fn.body[fn.body.index(loop) + 1:]
         fresh = [x for st in rest for x in ast.walk(st) if isinstance(x, ast.Attribute) and x.attr == "f_lasti"]
-        walks = [st for st in rest if isinstance(st, ast.While)]
-        curs = set()
-        for wl in walks:
-            for x in ast.walk(wl):
-                if (isinstance(x, ast.Call) and isinstance(x.func, ast.Attribute) and x.func.attr.startswith("bisect")):
-                    for y in ast.walk(x):
-                        if isinstance(y, ast.BinOp) and isinstance(y.op, ast.Add) and isinstance(y.left, ast.Name):
-                            curs.add(y.left.id)
-        if len(walks) == 1 and len(curs) == 1 and not fresh:
+
+        def accepted(v):
+            """Name v holds the lasti validated by the accepted attempt: lasti_before itself (the loop is left
+            by `break` only on acceptance) or a variable assigned exactly once, from it, on the accepted path"""
+            if v == NAMES["lasti"]:
+                return True
+            stores = [x for x in ast.walk(fn) if isinstance(x, ast.Name) and isinstance(x.ctx, ast.Store) and x.id == v]
+            path = _strip(loop.body[loop.body.index(tr) + 1:])
+            asg = [st for st in path if isinstance(st, ast.Assign) and len(st.targets) == 1
+                   and isinstance(st.targets[0], ast.Name) and st.targets[0].id == v
+                   and isinstance(st.value, ast.Name) and st.value.id == NAMES["lasti"]]
+            return len(stores) == 1 and len(asg) == 1
+
+        def walk_start(stmts):
+            """the Name the cursor of the unique bisect walk among stmts is initialised from (else None)"""
+            walks = [st for st in stmts if isinstance(st, ast.While)]
+            curs = set()
+            for wl in walks:
+                for x in ast.walk(wl):
+                    if isinstance(x, ast.Call) and isinstance(x.func, ast.Attribute) and x.func.attr.startswith("bisect"):
+                        for y in ast.walk(x):
+                            if isinstance(y, ast.BinOp) and isinstance(y.op, ast.Add) and isinstance(y.left, ast.Name):
+                                curs.add(y.left.id)
+            if len(walks) != 1 or len(curs) != 1:
+                return None
             cur = next(iter(curs))
-            before = rest[:rest.index(walks[0])]
+            before = stmts[:stmts.index(walks[0])]
             inits = [st for st in before if isinstance(st, ast.Assign) and len(st.targets) == 1
                      and isinstance(st.targets[0], ast.Name) and st.targets[0].id == cur]
             if len(inits) == 1 and isinstance(inits[0].value, ast.Name):
-                v = inits[0].value.id
-                if v == NAMES["lasti"]:
-                    ok = True
-                else:
-                    stores = [x for x in ast.walk(fn) if isinstance(x, ast.Name) and isinstance(x.ctx, ast.Store) and x.id == v]
-                    accepted = _strip(loop.body[loop.body.index(tr) + 1:])
-                    asg = [st for st in accepted if isinstance(st, ast.Assign) and len(st.targets) == 1
-                           and isinstance(st.targets[0], ast.Name) and st.targets[0].id == v
-                           and isinstance(st.value, ast.Name) and st.value.id == NAMES["lasti"]]
-                    ok = len(stores) == 1 and len(asg) == 1
+                return inits[0].value.id
+            return None
+
+        inline = walk_start(rest)
+        if inline is not None:
+            ok = not fresh and accepted(inline)
+        elif _TREE is not None:
+            from . import snippets
+            found = snippets.find_walk_helper(_TREE, fn)
+            if found is not None:
+                call, h = found
+                calls_all = [x for x in ast.walk(fn) if isinstance(x, ast.Call) and isinstance(x.func, ast.Name)
+                             and x.func.id == h.name]
+                in_rest = any(call is x for st in rest for x in ast.walk(st))
+                params = [a.arg for a in h.args.args]
+                if len(calls_all) == 1 and in_rest and len(params) == 2 and isinstance(call.args[1], ast.Name):
+                    start = walk_start(h.body)
+                    reassigned = [x for x in ast.walk(h) if isinstance(x, ast.Name) and isinstance(x.ctx, ast.Store)
+                                  and x.id == params[1]]
+                    inner_fresh = [x for x in ast.walk(h) if isinstance(x, ast.Attribute) and x.attr == "f_lasti"]
+                    ok = (start == params[1] and not reassigned and not inner_fresh and not fresh
+                          and accepted(call.args[1].id))
     facts["snapshot_blocks_from_accepted"] = ok
 
     # --- details.stack = [] inside the attempt, before the slot loop
